@@ -11,6 +11,7 @@ import yaml
 from ..fillmodel import PathV, FileV
 from ..model import dotted_name, src
 from ..report import AnalysisError, REPO, Where
+from ..fsmodel import FS, FileV as FileV2, TextOf
 from ..sym import Ev, DictV, Tup, RaisedV, BoundLib, hkey, is_sym, open_kw, yaml_kw
 
 CFG = "cij.io.config.config"
@@ -116,21 +117,33 @@ def r_loader(ctx, model):
     f = model.func(ref)
     w = model.where(ref, f)
     results = {}
+    _fs_of = {}
     for name in ("a/settings.yml", "settings.yaml", "conf.json", "conf.txt", "conf.YAML"):
         for validate in (True, False):
             log = []
 
-            def path_ctor(ev, a, k):
-                return PathS(a[0] if isinstance(a[0], str) else a[0].text)
+            fs = FS(missing="opaque")
+            intr = fs.intrinsics(arg_anchor="arg")
 
-            intr = {
-                "pathlib.Path": path_ctor,
-                "builtins.open": lambda ev, a, k: (open_kw(k), log.append(("open", a[0] if isinstance(a[0], str) else getattr(a[0], "text", "?"))))[0] or FileV([], None),
-                "yaml.load": lambda ev, a, k: (yaml_kw(k), log.append(("yaml", ())))[0] or DictV({"from": "yaml"}),
-                "yaml.safe_load": lambda ev, a, k: (log.append(("yaml", ())) or DictV({"from": "yaml"})),
-                "json.load": lambda ev, a, k: (log.append(("json", ())) or DictV({"from": "json"})),
+            def parser(kind, check=None):
+                def f_(ev, a, k):
+                    if check:
+                        check(k)
+                    else:
+                        k.all()
+                    src_ = a[0] if a else None
+                    if not isinstance(src_, (FileV2, TextOf)):
+                        raise AnalysisError(f"{kind} parser applied to something that is not the opened file / its text")
+                    log.append((kind, ()))
+                    log.append(("parsed", (src_.path if isinstance(src_, FileV2) else src_.file.path).text))
+                    return DictV({"from": kind})
+                return f_
+            intr.update({
+                "yaml.load": parser("yaml", yaml_kw), "yaml.safe_load": parser("yaml"), "yaml.full_load": parser("yaml"), "yaml.unsafe_load": parser("yaml"),
+                "json.load": parser("json"), "json.loads": parser("json"),
                 "cij.io.config.validate:validate_config": lambda ev, a, k: log.append(("validate", unmark(a[0]))) or None,
-            }
+            })
+            _fs_of[id(log)] = fs
             ev = Ev(model, {}, intr, ctx=ctx)
             try:
                 out = ev.call_def(f, model.mods[CFG], ref, [name], {"validate": validate})
@@ -153,8 +166,10 @@ def r_loader(ctx, model):
             bad.append(f"{name}: validate=True but validate_config calls = {vals}")
         if not validate and vals:
             bad.append(f"{name}: validate=False but validated")
-        if ("open", name) not in log:
-            bad.append(f"{name}: opened {[l for l in log if l[0] == 'open']}")
+        opened = [p_.text for p_ in _fs_of[id(log)].opened()]
+        parsed = [l[1] for l in log if l[0] == "parsed"]
+        if opened != [name] or parsed != [name]:
+            bad.append(f"{name}: opened {opened}, parsed {parsed}")
     ctx.check(not bad, "read_config: suffix dispatch (.yml/.yaml -> YAML, .json -> JSON, else refuse), validation on every path when asked", w,
               expected="parser by suffix; validate_config(config) before returning iff validate", found="; ".join(bad[:4]) or f"{len(results)} scenarios as required",
               explanation="a configuration file is parsed by the wrong loader, an unsupported suffix is accepted, or validation is skipped", key="loader.table")
@@ -179,37 +194,88 @@ def r_defaults(ctx, model):
     w = model.where(ref, f)
     log = []
     default = {"qha": {"settings": {"DT": "D_DT", "NT": "D_NT"}}, "output": "D_OUT"}
-    intr = {
-        "cij.data:get_data_fname": lambda ev, a, k: PathV(a[0], packaged=True),
-        "builtins.open": lambda ev, a, k: (open_kw(k), log.append(a[0]))[0] or FileV([], a[0]),
-        "yaml.load": lambda ev, a, k: yaml_kw(k) or marker(default),
-        "yaml.safe_load": lambda ev, a, k: marker(default),
-    }
+    fs = FS(missing="opaque")
+    intr = fs.intrinsics()
+
+    def ymlparser(check=None):
+        def f_(ev, a, k):
+            check(k) if check else k.all()
+            src_ = a[0] if a else None
+            if not isinstance(src_, (FileV2, TextOf)):
+                raise AnalysisError("YAML parser applied to something that is not the opened file / its text")
+            log.append(src_.path if isinstance(src_, FileV2) else src_.file.path)
+            return marker(default)
+        return f_
+    intr.update({"yaml.load": ymlparser(yaml_kw), "yaml.safe_load": ymlparser(), "yaml.full_load": ymlparser()})
     ev = Ev(model, {}, intr, ctx=ctx)
     user = {"qha": {"settings": {"DT": "U_DT"}}, "elast": "U_EL"}
     out = ev.call_def(f, model.mods[CFG], ref, [marker(user)], {})
     want = json.loads(json.dumps(merge_ref(user, default)))
-    opened = [getattr(p, "text", p) for p in log]
+    opened = [getattr(p, "text", p) for p in log if getattr(p, "anchor", None) == "packaged"] if len(log) == len(fs.opened()) else [f"{len(fs.opened())} opened, {len(log)} parsed"]
     ctx.check(isinstance(out, DictV) and unmark(out) == want and opened == ["default/settings.yaml"], "apply_default_config = update_config(user, packaged default/settings.yaml)", w,
               expected=str(want), found=f"{unmark(out) if isinstance(out, DictV) else out}; opened {opened}",
               explanation="defaults override user settings (argument order), or the defaults are not the packaged default/settings.yaml", key="defaults.order")
     # validate_config validates against the packaged schema
     vref = "cij.io.config.validate:validate_config"
     vf = model.func(vref)
-    cap = {}
-    intr2 = {
-        "cij.data:get_data_fname": lambda ev, a, k: PathV(a[0], packaged=True),
-        "builtins.open": lambda ev, a, k: (open_kw(k), cap.setdefault("opened", []).append(getattr(a[0], "text", a[0])))[0] or FileV([], a[0]),
-        "json.load": lambda ev, a, k: DictV({"schema": "S"}),
-        "jsonschema.validate": lambda ev, a, k: cap.update(v=(a, k.all())) or None,
-    }
+    cap = {"validated": []}
+    fs2 = FS(missing="opaque")
+    intr2 = fs2.intrinsics()
+
+    def load_schema(ev, a, k):
+        k.all()
+        src_ = a[0] if a else None
+        if not isinstance(src_, (FileV2, TextOf)):
+            raise AnalysisError("JSON parser applied to something that is not the opened file / its text")
+        cap.setdefault("parsed", []).append(src_.path if isinstance(src_, FileV2) else src_.file.path)
+        return DictV({"schema": "S"})
+
+    class JSValidator:
+        """a jsonschema validator object bound to a schema"""
+        def __init__(self, schema):
+            self.schema = schema
+
+        def sym_getattr(self, ev, name, node, mod):
+            if name in ("validate", "iter_errors", "is_valid"):
+                return BoundLib("jsv.check", self)
+            raise ev.err(f"jsonschema validator attribute {name}", node, mod)
+
+    class JSValidatorClass:
+        def sym_call(self, ev, args, kwargs, n, mod):
+            return JSValidator(kwargs.get("schema", args[0] if args else None))
+
+        def sym_getattr(self, ev, name, node, mod):
+            if name == "check_schema":
+                return BoundLib("identity_none", self)
+            raise ev.err(f"jsonschema validator class attribute {name}", node, mod)
+
+    def js_validate(ev, a, k):
+        kk = k.all()
+        cap["validated"].append((kk.get("instance", a[0] if a else None), kk.get("schema", a[1] if len(a) > 1 else None)))
+        return None
+
+    def jsv_check(ev, a, k):
+        cap["validated"].append((a[1] if len(a) > 1 else k.get("instance"), a[0].schema))
+        return Tup([], "list")
+
+    intr2.update({
+        "json.load": load_schema, "json.loads": load_schema,
+        "jsonschema.validate": js_validate, "jsv.check": jsv_check, "identity_none": lambda ev, a, k: None,
+        "jsonschema.validators.validator_for": lambda ev, a, k: (k.all(), JSValidatorClass())[1],
+        "jsonschema.exceptions.best_match": lambda ev, a, k: None, "jsonschema.exceptions.relevance": lambda ev, a, k: None,
+    })
+    for vname in ("Draft3Validator", "Draft4Validator", "Draft6Validator", "Draft7Validator", "Draft201909Validator", "Draft202012Validator"):
+        intr2[f"jsonschema.{vname}"] = lambda ev, a, k: JSValidator(k.get("schema", a[0] if a else None))
+        intr2[f"jsonschema.validators.{vname}"] = intr2[f"jsonschema.{vname}"]
     ev2 = Ev(model, {}, intr2, ctx=ctx)
     cfg = DictV({"cfg": "C"})
     ev2.call_def(vf, model.mods["cij.io.config.validate"], vref, [cfg], {})
-    a, k = cap.get("v", ((), {}))
-    inst = k.get("instance", a[0] if a else None)
-    sch = k.get("schema", a[1] if len(a) > 1 else None)
-    ok = inst is cfg and isinstance(sch, DictV) and unmark(sch) == {"schema": "S"} and cap.get("opened") == ["schema/config.schema.json"]
+    vals = cap["validated"]
+    inst, sch = vals[0] if len(vals) == 1 else (None, None)
+    parsed = cap.get("parsed", [])
+    cap["opened"] = [p_.text for p_ in fs2.opened()]
+    ok = inst is cfg and isinstance(sch, DictV) and unmark(sch) == {"schema": "S"} and cap["opened"] == ["schema/config.schema.json"] \
+        and len(parsed) == 1 and parsed[0].anchor == "packaged"
     ctx.check(ok, "validate_config validates the given object against the packaged schema", model.where(vref, vf),
               expected="jsonschema.validate(instance=config, schema=<schema/config.schema.json>)", found=f"opened {cap.get('opened')}, instance is config: {inst is cfg}",
               explanation="validation does not check the configuration against the packaged schema", key="validate.wiring")
